@@ -123,6 +123,67 @@ def rule_cover(ck, facts, cg):
     return bl, wl, vd, prod
 
 
+
+def rule_jump_index(ck, facts):
+    """a scrutinee below the smallest literal of an integer `match` takes the default arm on both back ends"""
+    from ..cfg import DefIndex, reachable as _reach
+    from ..facts import callee
+
+    R = "C01.ops"
+    cov = roles.vm_dispatch(facts)
+    if cov is None or "JmpTable" not in cov.primary_handled():
+        return
+    f = cov.fn
+    tb = cov.arm_target("JmpTable")
+    region = _reach(f, tb, stop=[cov.primary.block])
+    di = DefIndex(f)
+    n = 0
+    for b in sorted(region):
+        for st in f.stmts(b):
+            if st[3] != "a" or st[5][0] != "cast" or st[5][4] != "usize" or st[5][3] not in ("i64", "u64", "isize", "i32", "u32"):
+                continue
+            # the cast `(val - min) as usize`: its source is a signed 64-bit value
+            src = [st[5][2]] if st[5][2][0] in ("cp", "mv") else []
+            if not src:
+                continue
+            r = di.resolve(src[0])
+            if r[0] == "place" and r[1][1]:
+                r = di.resolve(["cp", [r[1][0], []]])
+
+            def mentions_min(rr, depth=0):
+                """does the value derive from the table's `min` field?"""
+                from ..facts import place_fields
+
+                if depth > 4:
+                    return False
+                ops = []
+                if rr[0] == "rv":
+                    rv = rr[1][5]
+                    ops = [o for o in rv[1:] if isinstance(o, list) and o and o[0] in ("cp", "mv")]
+                elif rr[0] == "call":
+                    ops = [o for o in rr[1][5] if o[0] in ("cp", "mv")]
+                elif rr[0] == "place":
+                    return any((x or "").endswith("::min") for x in place_fields(rr[1])) or mentions_min(di.resolve(["cp", [rr[1][0], []]]), depth + 1)
+                for o in ops:
+                    from ..facts import place_fields as _pf
+                    if any((x or "").endswith("::min") for x in _pf(o[1])):
+                        return True
+                    if mentions_min(di.resolve(o if not o[1][1] else ["cp", [o[1][0], []]]), depth + 1):
+                        return True
+                return False
+
+            if not mentions_min(r):
+                continue
+            n += 1
+            key = "jump-index|%s" % f.short.split("::")[-1]
+            if r[0] == "rv" and r[1][5][0] == "bin" and r[1][5][1] in ("sub", "sub_ov", "sub_wrap"):
+                ck.ok(R, key, {"index": "(value - min) as usize", "below_min": "wraps to a huge index = default arm"})
+            else:
+                what = (callee(r[1]) or "?").split("::")[-1] if r[0] == "call" else r[0]
+                ck.bad(R, key, "the VM's jump-table index is not the plain wrapped difference `(value - min) as usize` (it goes through `%s`): WASM compares the difference as an unsigned number, so a scrutinee below the smallest literal takes the default arm there, while here its distance from the minimum selects a literal arm" % what, f.where(st))
+    ck.floor(R, "jump_table_index_casts", n, 1)
+
+
 def run(ck, facts, tier):
     from ..rules import scratchlocal as _sl
 
@@ -134,6 +195,7 @@ def run(ck, facts, tier):
     anchors = rule_cover(ck, facts, cg)
     if anchors:
         c01_ops.run(ck, facts, cg, anchors, tier)
+        rule_jump_index(ck, facts)
         c01_bounds.run(ck, facts, cg, anchors, tier, "C01")
         c01_tables.run(ck, facts, cg, anchors, tier)
     prims.rule_delay(ck, facts, "C01.prims", want=("vm", "wasm"))
